@@ -186,7 +186,7 @@ def one(kind, sername, beh, is_async, rp, var=0, keyed=False):
             fw.settle()
         obs["calls"] = len(calls)
         obs["argsOk"] = calls == [((1, "two"), {"k": 3})]
-        obs["alive"] = sess._session_id is not None and not conn.client_dropped()
+        obs["alive"] = sess.session_id is not None and not conn.client_dropped()
         obs["userErrors"] = len(sess.errors)
         # the session still works: a second, plain invocation is answered
         if obs["alive"]:
